@@ -8,7 +8,10 @@ RES_PIN = json.load(open(sys.argv[4])) if len(sys.argv) > 4 and os.path.exists(s
 ADAPT = {"C01/m3": "C01_m3_string_ceil", "C14/m1": "C01_m3_string_ceil", "C10/m2": "C10_m2_string_nofloor", "C05/m3": "C05_m3_string_size_chars",
          "C06/m3": "C06_m3_vec_validate_all_slots", "C12/m2": "C12_m2_last_by_length", "C13/m3": "C13_m3_push_room_le", "C18/m1": "C18_m1_tag_last",
          "C01/m1": "C01_m1_tag_accepts_n", "C02/m1": "C01_m1_tag_accepts_n", "C10/m1": "C01_m1_tag_accepts_n"} if TAG == "r1" else {}
-MANUAL = {"C08/m1": True, "C08/m2": True, "C08/m3": True} if TAG == "r1" else \
+if TAG == "r4":
+    ADAPT = {"C01/m2": "r4_C01_m2_min_size_by_tag_value", "C19/m1": "r4_C19_m1_flex_item_shift_lsize", "C20/m2": "r4_C20_m2_vec_validate_all_slots"}
+MANUAL = {("C%02d/m%d" % (p, m)): True for p in (8, 9) for m in (1, 2, 3)} if TAG == "r4" else \
+    {"C08/m1": True, "C08/m2": True, "C08/m3": True} if TAG == "r1" else \
     ({"C04/m1": True, "C04/m2": True, "C04/m3": True, "C17/m2": True} if TAG == "r2" else {})  # demo layouts the script does not place; run by hand
 out_root = "/verif/seeded"
 summary = []
@@ -41,7 +44,7 @@ for pid in ["C%02d" % i for i in range(1, 21)]:
         if sd in ADAPT:
             shutil.copy("/verif/seeded/_adapted/%s.diff" % ADAPT[sd], dst + "/patch_head.diff")
             patch_for_head = dst + "/patch_head.diff"
-            note = "original patch is against the pinned tree 4af8f1a and no longer applies after the fix: commits; patch_head.diff is the same change re-expressed on the fixed tree"
+            note = "original patch is against an earlier tree and no longer applies after later fix: commits; patch_head.diff is the same change re-expressed on the current tree"
         r = subprocess.run(["/verif/tools/try_seed.sh", patch_for_head, pid], capture_output=True, text=True)
         outp = r.stdout + r.stderr
         rules = sorted(set(re.findall(r"^  rule ([\w\.\-]+):", outp, re.M)))
@@ -51,7 +54,7 @@ for pid in ["C%02d" % i for i in range(1, 21)]:
             "property": pid, "round": TAG, "mutant": m,
             "summary": meta.get("summary"), "breaks": meta.get("breaks"), "needs_to_manifest": meta.get("needs_to_manifest"),
             "files_touched": meta.get("files_touched"),
-            "made_against": "pinned tree 4af8f1a" if TAG == "r1" else "fixed tree (/repo HEAD at the time)",
+            "made_against": "pinned tree 4af8f1a" if TAG == "r1" else ("/repo at 5af399e" if TAG in ("r2", "r3", "r4") else "/repo HEAD at the time"),
             "confirmed_by_me": {
                 "how": "tools/confirm_seeds.py in a scratch worktree: cargo test --workspace --offline with the patch (must pass), demo with the patch (must fail), demo without (must pass)",
                 "on_fixed_tree": rh if rh else ("manual run, see DESIGN.md" if MANUAL.get(sd) else None),
